@@ -4,7 +4,8 @@ import GuppyVerif.Util.Sexp
     `(chk fn|with <flags:nat> (<stmt>…))` → `ok` | `pre loop|assign` | `bb <err>…`
     `(kw u c d p)` → flags value of `_parse_kwargs`;  `(wf d|c|p …)` → flags value of a modifier list.
     expr: `l` | `(p q s)` | `(c <flags> <retq> <expr>…)` | `(x <expr>…)` | `(n <q> <expr>…)`
-    stmt: `(e <expr>)` | `(a)` | `(a <expr>)` | `(i <expr> (<stmt>…) (<stmt>…))` | `(w <expr> (<stmt>…))` -/
+    stmt: `(e <expr>)` | `(a)` | `(a <expr>)` | `(i <expr> (<stmt>…) (<stmt>…))` | `(w <expr> (<stmt>…))`
+          | `(wb <flags> (<expr>…) (<stmt>…))` -/
 open GuppyVerif GuppyVerif.Unitary
 
 def bit? : Sexp → Option Bool
@@ -32,6 +33,8 @@ partial def stmt? : Sexp → Option Stmt
   | .list [.atom "a", e] => do some (.assign (some (← expr? e)))
   | .list [.atom "i", c, .list t, .list f] => do some (.ite (← expr? c) (← block? t) (← block? f))
   | .list [.atom "w", c, .list b] => do some (.while (← expr? c) (← block? b))
+  | .list [.atom "wb", g, .list cs, .list b] => do
+      some (.withBlock (← args? cs) (Flags.ofNat (← g.asNat?)) (← block? b))
   | _ => none
 partial def block? : List Sexp → Option Block
   | [] => some .nil
